@@ -21,7 +21,7 @@ CANARY_SAMPLE = 3.7281904
 CANARY_VAR = 'secretvar'
 
 CREDITS = [0, 0.1, 1 / 3., 0.5, 0.7, 0.99, 1, 1]
-MSGS = ['', '', 'm', 'two\nlines', 'well done']
+MSGS = ['', '', 'm', 'two\nlines', 'well done', 'use {braces} and {0}', '100% "quoted" \'text\' <b>x</b>', u'h\u00e9llo \u2713']
 
 
 def _alt(rng, expect, credit=None, pin=False):
